@@ -11,7 +11,8 @@ SPEC = dict(
                "bytes behind a header claiming millions of records (the size of a stream is what arrives) are each loaded by a "
                "fresh child process (cwd = directory with the files, RLIMIT_AS 3 GiB) that calls LoadEmbeddings and searches; the parent "
                "reads exit status, stderr and ru_maxrss. (3) For generated databases, answers of child processes with no files, with "
-               "provably inert files and with active files are compared query by query. Exploration with per-class coverage floors, not proof.",
+               "provably inert files and with active files are compared query by query (one query in seven carries text whose case mappings change its "
+               "encoded length). Exploration with per-class coverage floors, not proof.",
     level_note="Trusted: the harness generators and its own cosine (used only to classify generated files as inert), Linux ru_maxrss / "
                "RLIMIT_AS accounting, the Go runtime's fatal-error text. LoadEmbeddings is reached exactly as the CLI reaches it "
                "(files resolved relative to the cwd); nothing in /repo is hooked.",
